@@ -25,13 +25,8 @@ inductive BkErr where
 
 /-- the `for temp < previousLevel { pop }` loop; the stack is top first -/
 def popLoop (prev : Int) : Int → List Int → Except BkErr (Int × List Int)
-  | temp, sk =>
-    if temp < prev then
-      match sk with
-      | [] => .error .popEmpty
-      | p :: rest => popLoop prev (temp + 1 + p) rest
-    else .ok (temp, sk)
-termination_by _ sk => sk.length
+  | temp, [] => if temp < prev then .error .popEmpty else .ok (temp, [])
+  | temp, p :: rest => if temp < prev then popLoop prev (temp + 1 + p) rest else .ok (temp, p :: rest)
 
 /-- the update of `skippedLevels` for one bookmark of level `level` -/
 def skipStep (prev : Int) (sk : List Int) (level : Int) : Except BkErr (List Int) :=
